@@ -84,3 +84,16 @@ func VerifResetReplay(sta *State) {
 
 // VerifCleanerPeriod is the period of UsedRandomCleaner (replayCacheAgeLimit).
 func VerifCleanerPeriod() time.Duration { return replayCacheAgeLimit }
+
+// VerifReplayBallast registers n other clients' randoms (distinct, tagged with `tag`) as seen at unix time t: a cache
+// of realistic size, so that a clean-up pass takes long enough for handshakes to arrive while it runs.
+func VerifReplayBallast(sta *State, tag byte, n int, t int64) {
+	sta.usedRandomM.Lock()
+	var k [32]byte
+	k[31] = tag
+	for i := 0; i < n; i++ {
+		k[0], k[1], k[2], k[3] = byte(i>>24), byte(i>>16), byte(i>>8), byte(i)
+		sta.UsedRandom[k] = t
+	}
+	sta.usedRandomM.Unlock()
+}
